@@ -20,10 +20,12 @@ package main
 // Answers: `<ok|err> log=<write attempts> schema=<n> equal=<0|1|-> cls=<error class>`.
 
 import (
+	"archive/tar"
 	"bufio"
 	"bytes"
 	"context"
 	"crypto/hpke"
+	"encoding/hex"
 	"encoding/json"
 	"fmt"
 	"io"
@@ -266,7 +268,7 @@ func (d *c20Dump) load(stats *Stats, files []c20File, archive []byte, identity h
 	db := newC20DB()
 	opts := retriever.LoadOptions{BatchSize: d.batch, ProgressInterval: retriever.DefaultProgressInterval}
 	if archive != nil {
-		opts.ArchiveReader, opts.ArchiveIdentity = bytes.NewReader(archive), identity
+		opts.ArchiveReader, opts.ArchiveIdentity = c20Reader(archive), identity
 	} else {
 		dir, err := c20Materialise(files)
 		if err != nil {
@@ -303,7 +305,7 @@ func (d *c20Dump) loadKeepClass(stats *Stats, archive []byte, identity hpke.Priv
 	db := newC20DB()
 	_, err := retriever.Load(context.Background(), db, "test", retriever.LoadOptions{
 		BatchSize: d.batch, ProgressInterval: retriever.DefaultProgressInterval,
-		ArchiveReader: bytes.NewReader(archive), ArchiveIdentity: identity})
+		ArchiveReader: c20Reader(archive), ArchiveIdentity: identity})
 	res, equal := "err", "-"
 	if err == nil {
 		res, equal = "ok", "0"
@@ -421,7 +423,14 @@ func (r *c20Runner) Step(t []string, raw string) string {
 		r.stats.Inc("dumps")
 		return fmt.Sprintf("ok files=%d sizes=%s arc=%d", len(d.files), strings.Join(sizes, ","), len(d.archive))
 	}
-	if t[0] == "path" || t[0] == "frames" || t[0] == "clean" || t[0] == "join" || t[0] == "canon" {
+	if t[0] == "with" && len(t) >= 3 && c20KnownBehaviour(t[1]) && t[2] != "with" && t[2] != "dump" {
+		// deliver every stream of the wrapped op through this reader behaviour
+		c20ReaderBehaviour = t[1]
+		defer func() { c20ReaderBehaviour = "plain" }()
+		r.stats.Inc("reader." + t[1])
+		return r.Step(t[2:], raw)
+	}
+	if t[0] == "path" || t[0] == "frames" || t[0] == "framesr" || t[0] == "clean" || t[0] == "join" || t[0] == "canon" {
 		// corpus files of the sibling suites c20path* / c20frames* also match the corpus glob "c20*.ops" of this suite
 		return "foreign-op"
 	}
@@ -519,6 +528,65 @@ func (r *c20Runner) Step(t []string, raw string) string {
 		}
 		r.stats.Inc("arcmans.built")
 		return d.loadKeepClass(r.stats, arc.Bytes(), d.priv)
+	case (t[0] == "mtail" || t[0] == "mhead") && len(t) == 3:
+		extra, err := hex.DecodeString(t[2])
+		if err != nil || len(extra) == 0 {
+			return "bad-op"
+		}
+		files := d.clone()
+		if t[0] == "mtail" {
+			files[0].data = append(files[0].data, extra...)
+		} else {
+			files[0].data = append(append([]byte(nil), extra...), files[0].data...)
+		}
+		switch t[1] {
+		case "dir":
+			return d.load(r.stats, files, nil, nil)
+		case "arc":
+			dir, err := c20Materialise(files)
+			if err != nil {
+				return "harness-error " + err.Error()
+			}
+			defer os.RemoveAll(dir)
+			var arc bytes.Buffer
+			if err := retriever.WriteEncryptedCollectionArchive(&arc, dir, d.pub); err != nil {
+				r.stats.Inc("mtail.unbuildable")
+				return "skip unbuildable " + c20ErrClass(err)
+			}
+			return d.loadKeepClass(r.stats, arc.Bytes(), d.priv)
+		}
+		return "bad-op"
+	case t[0] == "umtail" && len(t) == 4:
+		// manifest.json extended inside a hostile encrypted archive: the real writer refuses such a manifest, so the
+		// attacker packs the tar himself (public key only) and the real Unpack has to refuse it
+		extra, err := hex.DecodeString(t[3])
+		if err != nil || len(extra) == 0 {
+			return "bad-op"
+		}
+		var tarBuf bytes.Buffer
+		tw := tar.NewWriter(&tarBuf)
+		paths := []int{}
+		for i := range d.files {
+			paths = append(paths, i)
+		}
+		sort.Slice(paths, func(a, b int) bool { return d.files[paths[a]].path < d.files[paths[b]].path })
+		for _, i := range paths {
+			data := d.files[i].data
+			if i == 0 {
+				data = append(append([]byte(nil), data...), extra...)
+			}
+			_ = tw.WriteHeader(&tar.Header{Name: d.files[i].path, Typeflag: tar.TypeReg, Mode: 0o600, Size: int64(len(data))})
+			_, _ = tw.Write(data)
+		}
+		_ = tw.Close()
+		var arc bytes.Buffer
+		w, err := retriever.NewEncryptedArchiveWriter(&arc, d.pub)
+		if err != nil {
+			return "harness-error " + err.Error()
+		}
+		_, _ = w.Write(tarBuf.Bytes())
+		_ = w.Close()
+		return r.unpackObserved(t[1], t[2], arc.Bytes())
 	case (t[0] == "edge" || t[0] == "arcedge" || t[0] == "dupnode") && len(t) >= 4:
 		return r.semanticOp(t)
 	case t[0] == "uarc" && len(t) == 6:
@@ -600,12 +668,22 @@ func (r *c20Runner) keyOp(t []string) string {
 			var penv map[string]any
 			_ = json.Unmarshal(pb.Bytes(), &penv)
 			env["key"] = penv["key"]
+		case "tailgarbage", "tailspace", "taildoc":
+			// the envelope itself is untouched; bytes FOLLOW it (handled below)
 		case "garbage":
 			env = map[string]any{"x": 1}
 		default:
 			return "bad-op"
 		}
 		rawKey, _ := json.Marshal(env)
+		switch t[1] {
+		case "tailgarbage":
+			rawKey = append(rawKey, []byte("\n}garbage\x00")...)
+		case "tailspace":
+			rawKey = append(rawKey, []byte(" \n\t\r\n")...)
+		case "taildoc":
+			rawKey = append(rawKey, []byte("\n{\"format\":\"other\"}")...)
+		}
 		identity, err := retriever.ReadArchivePrivateKey(bytes.NewReader(rawKey))
 		if err != nil {
 			r.stats.Inc("branch.key.rejected-at-parse")
@@ -999,6 +1077,83 @@ func (c20Suite) Gen(rng *Rng, tier string, w *bufio.Writer, stats *Stats) {
 						stats.Inc("gen.uarc")
 					}
 				}
+			}
+		}
+	}
+	// --- manifest.json extended / prefixed (garbage, stray brace, NUL, a second JSON document, white space only, BOM)
+	// for directory load, archive load and Unpack; key files followed by extra bytes
+	tails := []string{"7d", "00", "67617262616765", "7b7d", "0a7b22666f726d6174223a2278227d", "5d", "2c", "22", "30", "6e756c6c", "efbbbf", "c2a0", "0b", "0c",
+		"20", "0a", "090d0a20", "0a0a0a0a", "200a7d", "0a00"}
+	for ci, codec := range codecs {
+		dumpLine := fmt.Sprintf("dump codec=%s graphs=2 nodes=3 edges=3 shard=2 batch=2 gseed=%d", codec, 500+ci)
+		var ops []string
+		for _, tail := range tails {
+			ops = append(ops, "mtail dir "+tail, "mtail arc "+tail)
+			stats.Inc("gen.mtail")
+		}
+		for _, head := range []string{"efbbbf", "20", "0a", "00", "7b7d", "fffe"} {
+			ops = append(ops, "mhead dir "+head, "mhead arc "+head)
+		}
+		ops = append(ops, "arckey malformed tailgarbage", "arckey malformed tailspace", "arckey malformed taildoc")
+		for len(ops) > 0 {
+			n := len(ops)
+			if n > 100 {
+				n = 100
+			}
+			header("manifest-tail "+codec, dumpLine)
+			fmt.Fprintln(w, "noop")
+			for _, o := range ops[:n] {
+				fmt.Fprintln(w, o)
+			}
+			ops = ops[n:]
+		}
+		for ti, tail := range tails {
+			for mi, mode := range []string{"staged", "stagedforce", "encdirect"} {
+				if !thorough && mode != "staged" && (ti+mi+ci)%4 != 0 {
+					continue
+				}
+				pre := "absent"
+				if mode != "staged" {
+					pre = Pick(rng, []string{"absent", "empty", "full"})
+				}
+				header("manifest-tail-unpack "+codec, dumpLine)
+				fmt.Fprintf(w, "umtail %s %s %s\n", mode, pre, tail)
+				stats.Inc("gen.umtail")
+			}
+		}
+	}
+	// --- reader behaviours: the archive stream cases again, delivered the way other io.Readers deliver
+	for ci, codec := range codecs {
+		if !thorough && ci != int(fullCodec) {
+			continue
+		}
+		dumpLine := fmt.Sprintf("dump codec=%s graphs=2 nodes=3 edges=3 shard=2 batch=2 gseed=%d", codec, 600+ci)
+		d, err := c20BuildDump(c20KV(strings.Fields(dumpLine)[1:]))
+		if err != nil {
+			continue
+		}
+		for _, beh := range c20Behaviours {
+			var ops []string
+			ops = append(ops, "arc noop", "arc append 1", "arc append 2", "arc append 5", "arc append 4096",
+				fmt.Sprintf("arc trunc %d", len(d.archive)-1), fmt.Sprintf("arc trunc %d", len(d.archive)-17),
+				fmt.Sprintf("arc sub %d 1", len(d.archive)-1), fmt.Sprintf("arc sub %d 128", len(d.archive)/2), "arc sub 3 1", "arckey wrong")
+			for k := 0; k < 12; k++ {
+				ops = append(ops, fmt.Sprintf("arc sub %d %d", rng.Intn(len(d.archive)), 1+rng.Intn(255)), fmt.Sprintf("arc trunc %d", rng.Intn(len(d.archive))))
+			}
+			header("readers "+codec+" "+beh, dumpLine)
+			for _, o := range ops {
+				fmt.Fprintf(w, "with %s %s\n", beh, o)
+				stats.Inc("gen.reader_ops")
+			}
+			// unpack entry points, one op per case (known finding of the direct API must not mask the others)
+			for _, o := range []string{
+				"tar staged absent @collection", "tar staged+garbage absent @collection", "tar staged+trunc absent @collection",
+				"tar staged+nofinal absent @collection", "tar stagedforce+garbage full @collection", "tar encdirect+garbage absent @collection",
+				"tar plain absent r:" + c20Hex("ok.txt") + ":3", "uarc staged absent 1 canon none", "uarc staged absent 1 canon flip",
+			} {
+				header("readers-unpack "+codec+" "+beh, dumpLine)
+				fmt.Fprintf(w, "with %s %s\n", beh, o)
+				stats.Inc("gen.reader_ops")
 			}
 		}
 	}
